@@ -2,12 +2,12 @@ SPECIFICATION GSpec
 VIEW GView
 CONSTANTS
   Names = {"a", "b"}
-  IntVals <- IV_small
+  IntVals <- IV_quick
   Specials = {}
   DispNames = {"x"}
   MaxPieces = 2
   MaxExt = 1
   MaxDepth = 1
   AsImpl = {}
-  Families = {"cmp"}
+  Families = {"cmp", "arith"}
 CHECK_DEADLOCK FALSE
